@@ -70,5 +70,9 @@ func (h *Handler) handleRelease(p packet.DHCP4, options packet.DHCP4Options) (d 
 		return nil
 	}
 	Logger.Msg("release").ByteArray("clientid", clientID).IP("ip", lease.Addr.IP).MAC("mac", lease.Addr.MAC).ByteArray("xid", p.XId()).Write()
+	// the client gave the address back: the lease is no longer valid
+	lease.State = StateFree
+	lease.Addr.IP = netip.Addr{}
+	lease.IPOffer = netip.Addr{}
 	return nil
 }
